@@ -76,6 +76,7 @@ static void w_setup(int cfg, int thorough)
 }
 static const char *w_config_desc(void) { return cfgdesc; }
 
+static void scrub_free(void);
 static void w_init(void)
 {
     int i, l;
@@ -88,6 +89,7 @@ static void w_init(void)
         else if (m_off[l] == offsetof(struct elem, n2)) L[l] = (struct cstl_dlist)CSTL_DLIST_INITIALIZER(L[l], struct elem, n2);
         else L[l] = (struct cstl_dlist)CSTL_DLIST_INITIALIZER(L[l], struct elem, n);
         m_len[l] = 0; }
+    scrub_free();
 }
 
 static int w_enabled(mc_op_t o)
@@ -192,12 +194,27 @@ static void m_insert(int l, int pos, int i)
     for (k = m_len[l]; k > pos; k--) m_seq[l][k] = m_seq[l][k - 1];
     m_seq[l][pos] = i; m_len[l]++; m_where[i] = l;
 }
+/* The node of an element that is in no list holds stale bytes: the API takes uninitialised nodes (the unit tests pass stack garbage).  Before every
+ * operation every node that is not linked into a list is overwritten with plausible stale links - the address of the NEXT pool element's node - so
+ * that (a) an insert that forgets to write a link is seen, and (b) what such nodes hold is a function of the state, which the key (member nodes
+ * only) relies on. */
+static void stale_fill(void *node, size_t sz, const void *target) { size_t k; for (k = 0; k + sizeof(void *) <= sz; k += sizeof(void *)) memcpy((char *)node + k, &target, sizeof target); }
+static void scrub_free(void)
+{
+    int i;
+    for (i = 0; i < N; i++) {
+        struct elem *nx = &pool[(i + 1) % N]; int l = m_where[i];
+        if (l < 0 || m_off[l] != offsetof(struct elem, n)) stale_fill(&pool[i].n, sizeof pool[i].n, &nx->n);
+        if (l < 0 || m_off[l] != offsetof(struct elem, n2)) stale_fill(&pool[i].n2, sizeof pool[i].n2, &nx->n2);
+    }
+}
 static int m_pos(int l, int i) { int k; for (k = 0; k < m_len[l]; k++) if (m_seq[l][k] == i) return k; return -1; }
 
 static void w_apply(mc_op_t o)
 {
     int a = OA(o), b = OB(o), d = OD(o), ab = 0, k;
     static void * volatile rp;
+    scrub_free();
     switch (OC(o)) {
     case O_PUSHF:
         SHIM_CALL(ab, cstl_dlist_push_front(&L[a], &pool[b])); m_insert(a, 0, b); break;
